@@ -553,3 +553,129 @@ Section Main.
     rewrite Len. apply map_ext. intros j. apply Hid.
   Qed.
 End Main.
+
+(** ** Shapes of values, without any assumption on the inputs *)
+Section Shapes.
+  Variable A : Type.
+  Variable add : A -> A -> A.
+  Variable g : list node.
+  Variable fs : nat -> nodefun A.
+
+  Definition shape_rel (l : level) (v : value A) : Prop :=
+    match v with VInd _ => l = LInd | VPop _ => l <> LInd end.
+
+  Lemma shape_step inp n lv (e : env A) i l v :
+    node_level g lv i = Some l -> eval_node A add g fs inp n e i = Some v -> shape_rel l v.
+  Proof.
+    unfold node_level, eval_node. destruct (nth_error g i) as [nd|]; [|discriminate].
+    destruct (lv i); [discriminate|]. destruct (n_kind nd) as [|k].
+    - destruct (n_parents nd); [|discriminate]. destruct (inp i) as [r|rows], (n_sig nd); try discriminate.
+      + intros H1 H2. inversion H1; inversion H2; subst. simpl. discriminate.
+      + destruct (Nat.eqb (length rows) n); [|discriminate]. intros H1 H2. inversion H1; inversion H2; subst. reflexivity.
+    - destruct (gather lv (n_parents nd)) as [pl|]; [|discriminate].
+      destruct (level_of_kind k pl) as [l'|] eqn:LK; [|discriminate].
+      destruct (sig_eqb (sig_of_level l') (n_sig nd)); [|discriminate].
+      destruct (gather e (n_parents nd)) as [vs|]; [|discriminate].
+      intros H1 H2. inversion H1; subst l'. destruct k; simpl in LK.
+      + destruct (existsb is_ind pl && forallb ind_or_pop pl); inversion LK; inversion H2; subst. reflexivity.
+      + destruct (forallb (fun l0 => negb (is_ind l0)) pl); [|discriminate].
+        destruct (all_pop A vs); [|discriminate]. inversion H2; subst. simpl.
+        destruct (forallb is_pop pl); inversion LK; discriminate.
+      + destruct pl as [|[] [|[] [|]]]; try discriminate. inversion LK; inversion H2; subst. reflexivity.
+      + destruct (existsb is_ind pl && forallb ind_or_pop pl); inversion LK; inversion H2; subst. reflexivity.
+      + destruct (existsb is_ind pl && forallb ind_or_pop pl); inversion LK; inversion H2; subst. simpl. discriminate.
+      + destruct (forallb (fun l0 => negb (is_ind l0)) pl); [|discriminate].
+        destruct (all_pop A vs); [|discriminate]. inversion H2; subst. simpl.
+        destruct (forallb is_pop pl); inversion LK; discriminate.
+  Qed.
+
+  Definition SInv (lv : lenv) (e : env A) : Prop := forall i l v, lv i = Some l -> e i = Some v -> shape_rel l v.
+
+  Lemma shape_order inp n order : forall lv lvF (e : env A),
+    check_order g order lv = Some lvF -> SInv lv e -> SInv lvF (eval_order A add g fs inp n order e).
+  Proof.
+    induction order as [|i r IH]; simpl; intros lv lvF e H HI.
+    - now inversion H; subst.
+    - destruct (node_level g lv i) as [l|] eqn:N; [|discriminate].
+      apply (IH _ _ _ H). intros j lj v Hj Hv. destruct (Nat.eq_dec j i) as [->|Hne].
+      + rewrite upd_same in Hj. rewrite upd_same in Hv. inversion Hj; subst lj. eapply shape_step; eauto.
+      + rewrite upd_other in Hj by exact Hne. rewrite upd_other in Hv by exact Hne. eapply HI; eauto.
+  Qed.
+End Shapes.
+
+(** ** The same statements phrased with the declared signatures of a well-typed graph *)
+Section BySignature.
+  Variable A : Type.
+  Variable add : A -> A -> A.
+  Variable G : graph.
+  Variable fs : nat -> nodefun A.
+  Hypothesis W : well_typed G = true.
+
+  Lemma level_exists i : i < length (g_nodes G) -> exists l, level_at G i = Some l.
+  Proof.
+    intros Hi. destruct (well_typed_levels G W) as (lv & EL & Cov & _). unfold level_at. rewrite EL. now apply Cov.
+  Qed.
+
+  Theorem value_shape inp n i nd v : nth_error (g_nodes G) i = Some nd -> eval A add G fs inp n i = Some v ->
+    match n_sig nd with Ind => exists rows, v = VInd rows | Pop => exists r, v = VPop r end.
+  Proof.
+    intros E Hv. destruct (well_typed_levels G W) as (lv & EL & Cov & Sig).
+    destruct (Cov i) as [l Hl]. { apply nth_error_Some. congruence. }
+    unfold levels in EL.
+    assert (SI : SInv A lv (eval A add G fs inp n)).
+    { unfold eval. eapply shape_order; eauto. intros j lj vj Hj. discriminate. }
+    specialize (SI i l v Hl Hv). specialize (Sig i l nd Hl E). rewrite <- Sig.
+    destruct v as [r|rows]; simpl in SI.
+    - destruct l; simpl; try contradiction; eauto.
+    - subst l. simpl. eauto.
+  Qed.
+
+  Theorem locality_ind n1 n2 j1 j2 inp1 inp2 : j1 < n1 -> j2 < n2 ->
+    indep_inputs_related A G (fun v1 v2 => reindex A [j1] v1 = reindex A [j2] v2) inp1 inp2 ->
+    forall i nd, nth_error (g_nodes G) i = Some nd -> n_sig nd = Ind ->
+    forall v1 v2, eval A add G fs inp1 n1 i = Some v1 -> eval A add G fs inp2 n2 i = Some v2 ->
+      vrow A j1 v1 = vrow A j2 v2.
+  Proof.
+    intros H1 H2 Hin i nd E S. apply (locality_thm A add G fs n1 n2 j1 j2 inp1 inp2 H1 H2 Hin i LInd).
+    - eapply well_typed_ind_level; eauto.
+    - discriminate.
+  Qed.
+
+  Theorem alone_ind n j inp inp1 : j < n ->
+    indep_inputs_related A G (fun v v' => v' = reindex A [j] v) inp inp1 ->
+    forall i nd, nth_error (g_nodes G) i = Some nd -> n_sig nd = Ind ->
+    forall v, eval A add G fs inp n i = Some v -> eval A add G fs inp1 1 i = Some (reindex A [j] v).
+  Proof.
+    intros Hj Hin i nd E S. apply (alone_thm A add G fs n j inp inp1 Hj Hin i LInd).
+    - eapply well_typed_ind_level; eauto.
+    - discriminate.
+  Qed.
+
+  Theorem equivariance_ind p n inp inp' : Permutation p (seq 0 n) ->
+    indep_inputs_related A G (fun v v' => v' = reindex A p v) inp inp' ->
+    forall i nd, nth_error (g_nodes G) i = Some nd -> n_sig nd = Ind ->
+    forall v, eval A add G fs inp n i = Some v -> eval A add G fs inp' n i = Some (reindex A p v).
+  Proof.
+    intros P Hin i nd E S. apply (equivariance_thm A add G fs p n inp inp' P Hin i LInd).
+    - eapply well_typed_ind_level; eauto.
+    - discriminate.
+  Qed.
+
+  Theorem equivariance_all p n inp inp' : Permutation p (seq 0 n) ->
+    (forall x y, add x y = add y x) -> (forall x y z, add x (add y z) = add (add x y) z) ->
+    indep_inputs_related A G (fun v v' => v' = reindex A p v) inp inp' ->
+    forall i nd, nth_error (g_nodes G) i = Some nd ->
+    forall v, eval A add G fs inp n i = Some v ->
+      match n_sig nd with
+      | Ind => eval A add G fs inp' n i = Some (reindex A p v)
+      | Pop => eval A add G fs inp' n i = Some v
+      end.
+  Proof.
+    intros P C Asc Hin i nd E v Hv.
+    destruct (level_exists i) as [l Hl]. { apply nth_error_Some. congruence. }
+    assert (R : eval A add G fs inp' n i = Some (reindex A p v)).
+    { apply (equivariance_thm A add G fs p n inp inp' P Hin i l Hl); auto. }
+    pose proof (value_shape inp n i nd v E Hv) as Sh.
+    destruct (n_sig nd); [|exact R]. destruct Sh as [r ->]. exact R.
+  Qed.
+End BySignature.
